@@ -52,7 +52,7 @@ def new_stats():
     return {"evaluations": 0, "nontrivial": set(), "classes": collections.Counter(), "margins": {},
             "counts": collections.Counter(), "samples": [], "sample_sigs": set(), "inconclusive": 0,
             "known_hits": collections.Counter(), "excluded_hits": collections.Counter(),
-            "harness_errors": [], "nontrivial_total": 0}
+            "harness_errors": [], "nontrivial_total": 0, "slowest": []}
 
 
 def known_match(mod, known, case, clause, detail):
@@ -118,11 +118,13 @@ def shard_worker(job):
                 if state["t_fail"] is not None and time.time() - state["t_fail"] > shrink_budget:
                     state["stop"] = True     # stop shrinking: everything passes from now on
                     return
+                t_case = time.time()
                 try:
                     res = core.run_with_timeout(prof.run, case, prof.timeout)
                 except CaseTimeout:
                     stats["inconclusive"] += 1
                     stats["evaluations"] += 1
+                    stats["slowest"].append((prof.timeout, json.dumps(case, default=str)[:1500]))
                     return
                 except hypothesis.errors.HypothesisException:
                     raise
@@ -131,6 +133,9 @@ def shard_worker(job):
                     stats["evaluations"] += 1
                     return
                 account(stats, case, res)
+                dt = time.time() - t_case
+                if dt > 5.0 and len(stats["slowest"]) < 20:
+                    stats["slowest"].append((round(dt, 1), json.dumps(case, default=str)[:1500]))
                 unlisted = []
                 for clause, detail in res.failures:
                     k = known_match(mod, known, case, clause, detail)
@@ -355,6 +360,7 @@ def run_check(prop, tier, seed_value, examples=None, only_profile=None, workers=
             if len(m["samples"]) < 6:
                 m["samples"].append(s)
         harness_errors.extend(st["harness_errors"][:2])
+        m["slowest"].extend(st.get("slowest", []))
         found.extend(r["violations"])
 
     # one replay file per failure bucket (first failing clause), smallest case first
@@ -406,6 +412,9 @@ def run_check(prop, tier, seed_value, examples=None, only_profile=None, workers=
     }
     if enumerated:
         coverage["enumerated_exhaustively"] = enumerated
+    slow = sorted((x for m in merged.values() for x in m["slowest"]), key=lambda x: -x[0])[:3]
+    if slow:
+        coverage["slowest_cases_s"] = [{"seconds": t, "case": c[:600]} for t, c in slow]
     extra = getattr(mod, "coverage_extra", None)
     if extra:
         coverage.update(extra(tier, merged))
